@@ -434,6 +434,86 @@ def h_retry_receipt(ctx):
     return obs
 
 
+def h_group_receipts(ctx):
+    """a group message stays queued while members acknowledge it: an ordinary delivery receipt of one member must not prevent
+    serving the later retry request of another member (re-encrypted for that member only)"""
+    st, bottom, app, mgr, sl, rl = _stack(ctx, sessions=True, senderkey=True)
+    N = SC.N()
+    to, mid = "4915900000009-1400000000@g.us", H.zstr(ctx, "id")
+    node = N("message", {"to": to, "type": "text", "id": mid}, [N("proto", {}, None, _payload("text"))])
+    sl.send(node)
+    m1, m2 = _jid(ctx, "member1"), _jid(ctx, "member2")
+    if H.sym(ctx):
+        ctx.assume(m1 != m2)
+    elif m1 == m2:
+        raise core.Infeasible()
+    first = ctx.choice("first_receipt", ["delivery-then-retry", "retry-only", "two-deliveries-then-retry"])
+    obs = []
+    n_up = 0
+    if first != "retry-only":
+        for k in range(2 if first.startswith("two") else 1):
+            bottom.inject(N("receipt", {"id": mid, "from": to, "participant": m1, "t": "1400000002"}))
+            n_up += 1
+        obs.append(("each member's delivery receipt reaches the application", len(app.up) == n_up))
+    n0 = len(bottom.down)
+    bottom.inject(N("receipt", {"id": mid, "from": to, "participant": m2, "type": "retry", "t": "1400000003"},
+                    [N("retry", {"count": "1", "id": mid, "v": "1", "t": "1400000001"}), N("registration", None, None, b"\x00\x00\x10\x92")]))
+    new = bottom.down[n0:]
+    iqs = [n for n in new if n.tag == "iq"]
+    obs.append(("retry request of another member is served: acknowledged and keys fetched", len([n for n in new if n.tag == "ack"]) == 1 and len(iqs) == 1))
+    obs.append(("retry receipt itself does not surface", len(app.up) == n_up))
+    if len(iqs) == 1:
+        from checks import c09
+        found, _ = c09.discover()
+        fx = [c09._load_fixture(m, c_)[1] for m, c_, _l, _d in found if c_ == "ResultGetKeysIqProtocolEntityTest"][0]
+        user = fx.getChild("list").children[0]
+        n1 = len(bottom.down)
+        bottom.inject(N("iq", {"id": hooks.dict_get(iqs[0].attributes, "id"), "type": "result", "from": "s.whatsapp.net"}, [N("list", {}, [N("user", {"jid": m2}, list(user.children))])]))
+        again = [n for n in bottom.down[n1:] if n.tag == "message"]
+        obs.append(("the original is re-encrypted and sent once", len(again) == 1))
+        if again:
+            obs.append(("... to the requesting member only", SC.val_eq(hooks.dict_get(again[0].attributes, "participant"), m2)))
+            obs.append(("... as an envelope", again[0].getChild("proto") is None and len(again[0].getAllChildren("enc")) >= 1))
+    return obs
+
+
+def h_manager_exception_mapping(ctx):
+    """REAL AxolotlManager.decrypt_*: each failure class of the ratchet library is reported as the matching yowsup class
+    (duplicate != invalid message != invalid key id != no session) -- the receive layer's reactions depend on it"""
+    import yowsup.axolotl.manager as mm
+    from yowsup.axolotl import exceptions as X
+    from axolotl.nosessionexception import NoSessionException
+    from axolotl.invalidkeyidexception import InvalidKeyIdException
+    from axolotl.invalidmessageexception import InvalidMessageException
+    from axolotl.duplicatemessagexception import DuplicateMessageException
+    kinds = {"no-session": (NoSessionException, X.NoSessionException), "invalid-key-id": (InvalidKeyIdException, X.InvalidKeyIdException),
+             "invalid-message": (InvalidMessageException, X.InvalidMessageException), "duplicate": (DuplicateMessageException, X.DuplicateMessageException)}
+    which = ctx.choice("failure", sorted(kinds))
+    api = ctx.choice("api", ["decrypt_pkmsg", "decrypt_msg", "group_decrypt"])
+    if api == "group_decrypt" and which == "invalid-key-id":
+        return []
+    raised, expected = kinds[which]
+
+    class Cipher(object):
+        def decryptPkmsg(self, m):
+            raise raised("x")
+        decryptMsg = decrypt = decryptPkmsg
+    mgr = mm.AxolotlManager.__new__(mm.AxolotlManager)
+    mgr._get_session_cipher = lambda who: Cipher()
+    mgr._get_group_cipher = lambda g, u: Cipher()
+    mm.PreKeyWhisperMessage = lambda serialized=None: object()
+    mm.WhisperMessage = lambda serialized=None: object()
+    got = None
+    try:
+        if api == "group_decrypt":
+            mgr.group_decrypt("g", "p", b"data")
+        else:
+            getattr(mgr, api)("sender", b"data", True)
+    except Exception as e:
+        got = type(e)
+    return [("%s: library failure '%s' is reported as yowsup's %s (got %s)" % (api, which, expected.__name__, getattr(got, "__name__", got)), got is expected)]
+
+
 def h_padding(ctx):
     """REAL manager code: _unpad(message + _generate_random_padding()) == message for every message and every pad length"""
     import yowsup.axolotl.manager as mm
@@ -456,7 +536,7 @@ def h_padding(ctx):
 def cases(tier):
     cs = [dict(name="send[1:1,session]", fn=h_send_direct, args=("contact",)), dict(name="send[group,sender-key]", fn=h_send_direct, args=("group",)),
           dict(name="send[1:1,no-session]", fn=h_send_no_session), dict(name="send[group,first message,sessions]", fn=h_send_group_first, args=(True,)),
-          dict(name="send[group,first message,no sessions]", fn=h_send_group_first, args=(False,)), dict(name="send[queue-bound]", fn=h_queue_bound), dict(name="retry-receipt", fn=h_retry_receipt),
+          dict(name="send[group,first message,no sessions]", fn=h_send_group_first, args=(False,)), dict(name="send[queue-bound]", fn=h_queue_bound), dict(name="retry-receipt", fn=h_retry_receipt), dict(name="group-receipts", fn=h_group_receipts), dict(name="manager-exception-mapping", fn=h_manager_exception_mapping, keep_samples=12),
           dict(name="pad[real manager]", fn=h_padding)]
     for enctype in ("pkmsg", "msg", "skmsg"):
         for outcome in ("ok", "duplicate", "invalid-message", "invalid-key-id", "no-session", "untrusted"):
